@@ -401,49 +401,6 @@ pub fn is_toplevel_term_dismax(q: &Value) -> bool {
     }
 }
 
-fn has_phrase(q: &Value) -> bool {
-    match q["k"].as_str().unwrap_or("") {
-        "phrase" | "pprefix" | "rphrase" => true,
-        "bool" => q["cl"].as_array().unwrap().iter().any(|c| has_phrase(&c["q"])),
-        "dismax" => q["qs"].as_array().unwrap().iter().any(has_phrase),
-        "boost" | "const" => has_phrase(&q["q"]),
-        _ => false,
-    }
-}
-
-/// Recorded finding: PhraseScorer::seek_danger debug-asserts `target >= doc()`, but Exclude::contains
-/// and BufferedUnionScorer::seek_danger probe their members with smaller targets.  A phrase-like
-/// leaf is in a safe position only if every ancestor is a boost/const wrapper, a bool in which it is
-/// a Must clause, or a bool with a Must clause and no required Should in which it is an optional Should.
-pub fn has_phrase_under_mustnot(q: &Value) -> bool {
-    phrase_unsafe(q, true)
-}
-
-fn phrase_unsafe(q: &Value, safe_here: bool) -> bool {
-    match q["k"].as_str().unwrap_or("") {
-        "phrase" | "pprefix" | "rphrase" => !safe_here,
-        "boost" | "const" => phrase_unsafe(&q["q"], safe_here),
-        "dismax" => {
-            let qs = q["qs"].as_array().unwrap();
-            qs.iter().any(|x| phrase_unsafe(x, safe_here && qs.len() == 1))
-        }
-        "bool" => {
-            let cl = q["cl"].as_array().unwrap();
-            let n_must = cl.iter().filter(|c| c["o"] == "must").count();
-            let msm = q["msm"].as_u64().unwrap_or(0);
-            cl.iter().any(|c| {
-                let ok = match c["o"].as_str().unwrap() {
-                    "must" => true,
-                    "should" => (n_must >= 1 && msm == 0) || cl.len() == 1,
-                    _ => false,
-                };
-                phrase_unsafe(&c["q"], safe_here && ok)
-            })
-        }
-        _ => false,
-    }
-}
-
 pub struct GenOpts {
     pub depth: u32,
     pub leaf_kinds: Vec<&'static str>,
